@@ -263,6 +263,48 @@ def run(ctx):
             else:
                 r4.bad('overruns-saturate', 'overrun_count is not updated with a saturating add', loc=fn.loc(oc_blocks[0]) if oc_blocks else fn.loc(0))
 
+    # ------------------------------------------------------------------ R6 configuration tables
+    r6 = ctx.rule('C06.R6', 'the task table and the program tables are configuration: only the registration functions write them, never the cycle; the lowered INTERVAL is the source constant at full resolution', floor=3)
+    from ..cg import field_writes
+    ALLOWED = {
+        'Runtime.tasks': re.compile(r'runtime::core::Runtime::register_task$|runtime::bytecode::<impl .*Runtime>::apply_resource_metadata$|runtime::core::Runtime::(new|default)$'),
+        'Runtime.programs': re.compile(r'runtime::core::Runtime::register_program$|runtime::core::Runtime::(new|default)$'),
+        'Runtime.function_blocks': re.compile(r'runtime::core::Runtime::register_function_block$|runtime::core::Runtime::(new|default)$'),
+    }
+    for fld, ok_re in sorted(ALLOWED.items()):
+        writers = []
+        for k in sorted(fx.fns):
+            if '::tests::' in k or not k.startswith(('trust_runtime', '<trust_runtime')):
+                continue
+            w, mb = field_writes(fx.fns[k])
+            if any(f.endswith(fld) for ch in (w | mb) for f in ch):
+                writers.append(k)
+        r6.saw(len(writers))
+        extra = [k for k in writers if not ok_re.search(k.split('::{closure')[0])]
+        if extra:
+            r6.bad('table-writer|%s' % fld, '%s writes or mutably borrows %s: outside registration the table is read-only (a take / clear in the cycle that is not undone on a fault exit leaves every later cycle without its tasks: programs declared WITH a task then run as background programs every cycle)' % (
+                extra[0].replace('trust_runtime::', ''), fld), loc='%s:%d' % (fx.fns[extra[0]]['file'], fx.fns[extra[0]]['line']))
+        elif writers:
+            r6.ok('table-writer|%s' % fld, detail='%d writers' % len(writers))
+        else:
+            r6.bad('table-writer|%s' % fld, 'no writer of %s found (field renamed? rule needs review)' % fld)
+    ltc = [k for k in fx.fns if k.endswith('harness::compiler::config::lower_task_config')]
+    if not ltc:
+        r6.bad('anchor-missing|lower_task_config', 'lower_task_config not found')
+    else:
+        bodies = [ltc[0]] + list(fx.closures_of(ltc[0]))
+        r6.saw()
+        lossy = None
+        for bid in bodies:
+            f2 = F(fx.fns[bid])
+            for b, nm, t in f2.calls(lambda n: re.search(r'value::datetime::Duration::as_(millis|secs|micros)$', n) is not None):
+                lossy = (f2, b, nm)
+        if lossy:
+            f2, b, nm = lossy
+            r6.bad('interval-full-resolution', 'lower_task_config looks at the task timing through %s, which truncates: an INTERVAL below that unit (e.g. T#500us) is lowered as 0 and the task is never scheduled periodically' % nm.split('::')[-1], loc=f2.loc(b))
+        else:
+            r6.ok('interval-full-resolution')
+
     # ------------------------------------------------------------------ R5
     r5 = ctx.rule('C06.R5', 'background set computed from the same data in both places; a task runs its programs, then its function blocks, once each', floor=3)
     a = CY + 'execute_background_programs'
